@@ -1053,7 +1053,9 @@ ComponentPtr flattenComponent(const ComponentEntityPtr &parent, ComponentPtr &co
                 auto foundUnits = clonedImportModel->units(units->name());
                 while (flattenedUnits == nullptr) {
                     if (foundUnits->name() == clonedImportModel->units(unitsIndex)->name()) {
-                        flattenUnitsImports(clonedImportModel, units, unitsIndex, importedComponentCopy);
+                        // The units that the imported definition depends on are named in the name space of the model it comes
+                        // from: a change of one of those names says nothing about the names the component uses.
+                        flattenUnitsImports(clonedImportModel, units, unitsIndex, nullptr);
                         flattenedUnits = clonedImportModel->units(unitsIndex);
                     }
                     unitsIndex += 1;
